@@ -39,9 +39,17 @@ type Violation struct {
 	Trace   string
 	Kind    string // "assert", "panic", "hang", "deadlock"
 	Path    []int
+	Tags    string // input-class tags the harness attached before the violation (verifrt.Tag), sorted, comma-joined
+}
+
+func (p *PathState) tagString() string {
+	t := append([]string{}, p.tags...)
+	sort.Strings(t)
+	return strings.Join(t, ",")
 }
 
 type PathState struct {
+	tags      []string
 	prefix    []Decision // decisions to replay
 	decisions []Decision
 	dpos      int
@@ -359,7 +367,7 @@ func (it *Interp) checkAssertion(notc *Term) (SatResult, Model) {
 func (it *Interp) recordViolation(kind, label, detail string, m Model) {
 	p := it.path
 	in, where, tr := it.innermostCasket()
-	v := Violation{Harness: it.harnessName, Label: label, Kind: kind, In: in, Where: where, Detail: detail, Trace: tr}
+	v := Violation{Harness: it.harnessName, Label: label, Kind: kind, In: in, Where: where, Detail: detail, Trace: tr, Tags: it.path.tagString()}
 	v.Events = it.eventsWithModel(m)
 	for _, d := range p.decisions {
 		v.Path = append(v.Path, d.Chosen)
